@@ -207,9 +207,6 @@ func (m *fxModel) tick() {
 		for _, v := range ix.vers {
 			if v.block == m.now {
 				m.probe("future_version_matured")
-				if v.deleteAt == m.now {
-					m.probe("matured_and_deleted_same_block")
-				}
 			}
 			if v.staleAt == m.now && m.refs(ix, v) == 0 {
 				m.probe("version_became_stale")
@@ -359,7 +356,7 @@ func (w *fxWorld) genDel(m *fxModel, xi int) (fxOp, bool) {
 	case ix.pendDel != fxInf:
 		// a second delete on top of a scheduled one is refused
 		h := m.pendHolder(ix)
-		if h == nil {
+		if h == nil || w.draw(4) != 3 {
 			return op, false
 		}
 		op.kind = "del_reject"
@@ -379,16 +376,20 @@ func (w *fxWorld) genDel(m *fxModel, xi int) (fxOp, bool) {
 			op.block = m.now + 1 + uint64(w.draw(8))
 		}
 		return op, true
-	case m.cur(ix) == nil && len(futs) > 0:
-		// never had a current version: deleting exactly at the first future version cancels
-		// everything; deleting beyond it schedules a delete held by a future version
+	case len(futs) > 0:
+		// no live current version, only future ones: deleting beyond the first future version
+		// schedules a delete held by a future version; if the entry never had a current version,
+		// deleting exactly at the first future version cancels everything (documented example)
 		op.block = futs[0].block
-		if w.draw(2) == 1 {
+		if m.cur(ix) != nil || w.draw(2) == 1 {
 			op.block += 1 + uint64(w.draw(6))
 		}
 		return op, true
 	case len(futs) == 0:
 		// unknown or already deleted entry: refused
+		if w.draw(4) != 3 {
+			return op, false
+		}
 		op.kind = "del_reject"
 		op.block = m.now + uint64(w.draw(5))
 		return op, true
@@ -766,7 +767,7 @@ func fxFrames(stack string) string {
 			continue
 		}
 		out = append(out, l)
-		if len(out) == 4 {
+		if len(out) == 3 {
 			break
 		}
 	}
@@ -889,6 +890,10 @@ func runC14(r *simrt.Run) {
 	if r.Tier == "thorough" {
 		steps = 30 + r.Draw("cfg", 300)
 	}
+	stopDen := 50
+	if r.Tier == "thorough" {
+		stopDen = 300
+	}
 	prefixes := []string{"fx_a", "fx_ab"}
 	for i := 0; i < nStores; i++ {
 		ts := timertypes.NewTimerStore(mockStoreKey, cdc, prefixes[i])
@@ -903,8 +908,14 @@ func runC14(r *simrt.Run) {
 	r.Logf("cfg start=%d stale=%d stores=%d indices=%d steps=%d avoid=%v", w.ctx.BlockHeight(), stale, nStores, nIdx, steps, os.Getenv("C14_AVOID"))
 	for i := 0; i < steps; i++ {
 		r.Step()
-		k := r.Draw("ops", 10)
-		if k == 0 || k >= 7 {
+		// 0 (also what an exhausted tape yields while shrinking) ends the run: a shrunk tape then
+		// contains every tick it needs explicitly instead of regrowing a tail of implicit ticks
+		k := r.Draw("ops", stopDen)
+		if k == 0 {
+			r.Logf("end of run after %d steps", i)
+			break
+		}
+		if k%10 >= 6 {
 			// advance the clock, one block at a time
 			n := 1
 			switch r.Draw("ops", 6) {
